@@ -198,6 +198,12 @@ def run(res, tier, seed, search):
                 check_case(res, json.loads(l)); res.count("corpus")
     for i in range(n):
         check_case(res, gen_case(rng, "fcs"[i % 3]))
+    # the heaps as the build glue fills them: both update appliers and the three heap initialisers, bit-exact (index / distance /
+    # flag of every slot) against the same push model
+    from harness import descent_kernels as dk
+    nrng = np.random.default_rng(seed + 1111)
+    dk.check_appliers(res, nrng, 12 if tier == "quick" else 120)
+    dk.check_init_kernels(res, nrng, 8 if tier == "quick" else 80)
 
 
 def replay(res, doc):
